@@ -13,12 +13,14 @@
   OBLIGATION c25_single_ack
   OBLIGATION c25_nothing_after_close
   OBLIGATION c25_live
+  OBLIGATION c25_live_poll
+  OBLIGATION c25_complete_once_trace
+  OBLIGATION c25_complete_once_run
   OBLIGATION c25_codes
   OBLIGATION c25_code_table_new
   OBLIGATION c25_violated_by_dupIdReplaces
   OBLIGATION c25_violated_by_preAck1011
   OBLIGATION c25_violated_by_invalid1002
-  OPEN c25_complete_once_trace
 -/
 import AGV.Lemmas.Ws
 
@@ -100,6 +102,53 @@ theorem c25_live (s : State) (e : Env) (s' : State) (id inst val : Nat) (o : Out
       (split at h <;> simp at h <;> rcases ho with rfl | rfl <;> simp at h <;>
         (try (obtain ⟨h1, h2, _, _⟩ := h; subst h2; exact ⟨idOfInst_has _ _ _ (by assumption), h1.symm⟩))))
 
+/-- `c25_live` for a whole call of `poll_next` (any defect setting): whatever arrives, whichever
+    callback completes and whichever timer fires, a returned `next`/`data` carries an id that
+    is in the `streams` map of the state the poll leaves behind, and that id was in the map
+    before the poll or was started by a message this poll took from the socket.  (The message
+    loop, the keep-alive branch and the closed branch never return `next`/`data`.) -/
+theorem c25_live_poll (D : Defects) (s : State) (e : Env) (s' : State) (taken : List CMsg)
+    (id inst val : Nat) (o : Out) (ho : o = .next id inst val ∨ o = .data id inst val)
+    (h : poll D s e = (s', taken, o)) :
+    hasId id s'.streams = true ∧ (hasId id s.streams = true ∨ .start id ∈ taken) := by
+  unfold poll at h
+  generalize hs1 : ({ s with inbox := s.inbox ++ e.arrive, left := if e.tick then s.left - 1 else s.left } : State) = s1 at h
+  have hst : s1.streams = s.streams := by subst hs1; rfl
+  rw [← hst]
+  clear hs1 hst
+  simp only at h
+  split at h
+  · rcases ho with rfl | rfl <;> simp at h
+  · split at h
+    · cases hp : s1.proto <;> rcases ho with rfl | rfl <;> simp [refuse, hp] at h
+    · split at h
+      · rcases hl : loop D s1 s1.inbox with ⟨sl, rest, tk, ol⟩
+        rw [hl] at h
+        cases ol with
+        | some o1 =>
+          simp only [Prod.mk.injEq] at h
+          obtain ⟨_, _, rfl⟩ := h
+          exact (loop_ret_not_item D _ s1 sl rest tk o1 id inst val ho hl).elim
+        | none =>
+          simp only at h
+          rcases hal : afterLoop { sl with inbox := rest } e with ⟨s2, o2⟩
+          rw [hal] at h
+          simp only [Prod.mk.injEq] at h
+          obtain ⟨rfl, rfl, rfl⟩ := h
+          obtain ⟨g1, g2⟩ := c25_live _ e s2 id inst val o2 ho hal
+          subst g2
+          exact ⟨g1, loop_streams D _ s1 sl rest tk id hl g1⟩
+      · rcases hal : afterLoop s1 e with ⟨s2, o2⟩
+        rw [hal] at h
+        simp only [Prod.mk.injEq] at h
+        obtain ⟨rfl, rfl, rfl⟩ := h
+        obtain ⟨g1, g2⟩ := c25_live _ e s2 id inst val o2 ho hal
+        subst g2
+        exact ⟨g1, .inl g1⟩
+
+example : (poll {} { proto := .new, onInit := false, acked := true, inbox := [.start 3] }
+    { str := .item 0 9 }).2 = ([.start 3], .next 3 0 9) := by decide
+
 /-- Close codes: whenever the specification classifies a client message as a violation in the
     current state, the message loop returns at once, marks the connection closed and returns
     the close the protocol's table demands (the table is `Spec.WsProto.expected`). -/
@@ -149,17 +198,43 @@ theorem c25_violated_by_invalid1002 :
     ∃ p ka h, conforms p (run { invalid1002 := true } (State.init p ka) h) = false :=
   ⟨.new, 2, [{ arrive := [.bad] }], by decide⟩
 
-/-- OPEN (stated, not proved): the trace-only reading of "each operation completes at most once
-    and emits nothing afterwards" for every trace the monitor accepts — after a `complete id`
-    nothing about `id` is sent until the client starts `id` again.  `c25_conforms` proves the
-    model's traces are accepted by the monitor, whose `emit` rule enforces this step by step
-    (`complete id` removes `id` from `live`/`stopped`, `next`/`data`/`complete` need it there);
-    what is missing is the invariant `stopped ∩ live = ∅` of the monitor and the induction over
-    the middle segment. -/
-def c25_complete_once_trace : Prop :=
+/-- The trace-only reading of "each operation completes at most once and emits nothing
+    afterwards", for EVERY trace the monitor accepts (not only the model's): after a
+    `complete id` nothing about `id` (`next`/`data`/`complete`) is sent until the client starts
+    `id` again.  Proof: the monitor invariant `stopped ∩ live = ∅` (`Lemmas.Ws.steps_disj`) makes
+    `id` absent from both sets after its `complete`; absence is kept by every step other than
+    `recv (start id)`; an event about an absent id is rejected. -/
+theorem c25_complete_once_trace :
   ∀ (p : Proto) (pre mid : List Ev) (id : Nat) (o : Out),
     conforms p (pre ++ .out (.complete id) :: mid ++ [.out o]) = true →
     (o = .complete id ∨ (∃ i v, o = .next id i v) ∨ (∃ i v, o = .data id i v)) →
-    .recv (.start id) ∈ mid
+    .recv (.start id) ∈ mid := by
+  intro p pre mid id o hc ho
+  simp only [conforms, Option.isSome_iff_exists] at hc
+  obtain ⟨m', hm⟩ := hc
+  exact monitor_complete_once p pre mid id o {} m' disj_init hm ho
+
+/-- … and therefore for every session of the model: between a `complete id` and the next
+    message about `id` the server took a `start id` from the socket. -/
+theorem c25_complete_once_run (p : Proto) (ka : Nat) (h : List Env) (pre mid post : List Ev)
+    (id : Nat) (o : Out)
+    (ho : o = .complete id ∨ (∃ i v, o = .next id i v) ∨ (∃ i v, o = .data id i v))
+    (hr : run {} (State.init p ka) h = pre ++ .out (.complete id) :: mid ++ .out o :: post) :
+    .recv (.start id) ∈ mid := by
+  have hc := c25_conforms p ka h
+  simp only [conforms, Option.isSome_iff_exists] at hc
+  obtain ⟨m', hm⟩ := hc
+  have e : pre ++ .out (.complete id) :: mid ++ .out o :: post
+      = (pre ++ .out (.complete id) :: mid ++ [.out o]) ++ post := by simp
+  rw [hr, e, steps_append] at hm
+  cases h1 : steps p {} (pre ++ .out (.complete id) :: mid ++ [.out o]) with
+  | none => rw [h1] at hm; simp at hm
+  | some m1 => exact monitor_complete_once p pre mid id o {} m1 disj_init h1 ho
+
+example : run {} (State.init .new 0)
+    [{ arrive := [.init], fut := .ok }, { arrive := [.start 0] }, { str := .fin 0 },
+     { arrive := [.start 0] }, { str := .fin 1 }] =
+    [.recv .init, .out .ack, .recv (.start 0), .out .pending, .out (.complete 0),
+     .recv (.start 0), .out .pending, .out (.complete 0)] := by decide
 
 end AGV.Props.C25
